@@ -22,7 +22,17 @@ ByNameVerdict(e) ==
   ELSE IF e.bynamemeta # e.byindexmeta[MatOf(e.n, e.c + 1)] THEN "ByNameSamePlacement"
   ELSE "ok"
 
+\* one observed call interpret_indexing(axis, indexing): e.fa / e.fi = family ("m" matrix, "c" Cartesian) of the axis and
+\* of the indexing it is expressed in, e.k = 0-based position of the axis in its family, e.res = <<index, reversed>>
+CallExpected(e) ==
+  IF e.fa = e.fi THEN <<e.k, 0>>
+  ELSE IF e.fa = "m" THEN <<CartOf(e.n, e.k + 1) - 1, IF Reversed(e.n, e.k + 1) THEN 1 ELSE 0>>
+  ELSE <<MatOf(e.n, e.k + 1) - 1, IF Reversed(e.n, MatOf(e.n, e.k + 1)) THEN 1 ELSE 0>>
+CallVerdict(e) == IF e.res = <<-1, -1>> THEN "HelpersTotal"
+                  ELSE IF e.res # CallExpected(e) THEN "ObservedCallAgreesWithTable" ELSE "ok"
+
 Verdict(e) == CASE e.op = "tables" -> FirstFailing(AxesClauses(e))
+                [] e.op = "call" -> CallVerdict(e)
                 [] e.op = "layout" -> LayoutVerdict(e)
                 [] e.op \in {"slice", "reduce"} -> ByNameVerdict(e)
 Judge(e) == LET r == Verdict(e) IN
